@@ -1082,6 +1082,45 @@ func genTransfer() (string, error) {
 		return "", fmt.Errorf("transferRecvType: type test not found")
 	}
 	s += fmt.Sprintf("/-- type byte: sent for a write / read(+fd) transfer, and the value the receiver treats as write -/\ndef typeWrite : Nat := %d\ndef typeRead : Nat := %d\ndef recvTypeWrite : Nat := %d\n", tw, tr, rt)
+	// the read buffer the new process gives a transferred connection: GetIoBuffer(len(buf) + spare)
+	cf, err := parse("pkg/network/connection.go")
+	if err != nil {
+		return "", err
+	}
+	nsc := findFunc(cf, "", "newServerConnection")
+	if nsc == nil {
+		return "", fmt.Errorf("newServerConnection not found")
+	}
+	spare := int64(-1)
+	ast.Inspect(nsc.Body, func(n ast.Node) bool {
+		i, ok := n.(*ast.IfStmt)
+		if !ok || i.Init == nil || !mentions(i.Init, "types.VariableAcceptChan") {
+			return true
+		}
+		for _, c := range callsTo(i.Body, "buffer.GetIoBuffer") {
+			if len(c.Args) != 1 {
+				continue
+			}
+			switch a := c.Args[0].(type) {
+			case *ast.CallExpr:
+				if exprKey(a.Fun) == "len" {
+					spare = 0
+				}
+			case *ast.BinaryExpr:
+				if l, ok := a.X.(*ast.CallExpr); ok && exprKey(l.Fun) == "len" && a.Op == token.ADD {
+					if v, ok := intLit(a.Y); ok {
+						spare = v
+					}
+				}
+			}
+		}
+		return false
+	})
+	if spare < 0 {
+		return "", fmt.Errorf("newServerConnection: allocation of the inherited read buffer not found")
+	}
+	s += "/-- `newServerConnection` (transfer path): the inherited read buffer is allocated with len(buffered bytes) + this many bytes -/\n"
+	s += fmt.Sprintf("def inheritedBufferSpare : Nat := %d\n", spare)
 	s += footer("Transfer")
 	return s, nil
 }
